@@ -39,15 +39,7 @@ func MapEntries[M ~map[K]V, K comparable, V any](m M) []Entry[M, K, V] {
 	if n == 1 {
 		return es
 	}
-	keys := make([]string, n)
-	for i := range es {
-		keys[i] = KeyString(es[i].K)
-	}
-	idx := make([]int, n)
-	for i := range idx {
-		idx[i] = i
-	}
-	sort.SliceStable(idx, func(a, b int) bool { return keys[idx[a]] < keys[idx[b]] })
+	idx := canonicalOrder(n, func(i int, full bool) string { return valueStringMode(reflect.ValueOf(es[i].K), 0, full) })
 	order := mapOrder(n)
 	out := make([]Entry[M, K, V], n)
 	for i := range out {
@@ -105,15 +97,7 @@ func MapRange(v reflect.Value) *MapIter {
 	ks := v.MapKeys()
 	n := len(ks)
 	if n > 1 {
-		strs := make([]string, n)
-		for i := range ks {
-			strs[i] = valueString(ks[i], 0)
-		}
-		idx := make([]int, n)
-		for i := range idx {
-			idx[i] = i
-		}
-		sort.SliceStable(idx, func(a, b int) bool { return strs[idx[a]] < strs[idx[b]] })
+		idx := canonicalOrder(n, func(i int, full bool) string { return valueStringMode(ks[i], 0, full) })
 		order := mapOrder(n)
 		it.keys = make([]reflect.Value, n)
 		for i := range it.keys {
@@ -143,30 +127,99 @@ func (it *MapIter) Reset(v reflect.Value) {
 	*it = *MapRange(v)
 }
 
+// canonicalOrder sorts n keys by content. A cheap signature decides almost always (for a reflect.Type inside a key:
+// its name, or for an anonymous type its kind, field names, field type names and tags, one level deep); only keys
+// whose signatures tie are compared by their full rendering (the complete type string, which for deeply nested
+// anonymous struct types is very long).
+func canonicalOrder(n int, render func(i int, full bool) string) []int {
+	sig := make([]string, n)
+	for i := range sig {
+		sig[i] = render(i, false)
+	}
+	var full []string
+	fullOf := func(i int) string {
+		if full == nil {
+			full = make([]string, n)
+		}
+		if full[i] == "" {
+			full[i] = "=" + render(i, true)
+		}
+		return full[i]
+	}
+	idx := make([]int, n)
+	for i := range idx {
+		idx[i] = i
+	}
+	sort.SliceStable(idx, func(a, b int) bool {
+		x, y := idx[a], idx[b]
+		if sig[x] != sig[y] {
+			return sig[x] < sig[y]
+		}
+		return fullOf(x) < fullOf(y)
+	})
+	return idx
+}
+
 // KeyString renders a map key by content, without addresses where possible.
 func KeyString(k interface{}) string {
 	return valueString(reflect.ValueOf(k), 0)
 }
 
+func valueString(v reflect.Value, depth int) string { return valueStringMode(v, depth, true) }
+
+// typeSig is the cheap signature of a type (see canonicalOrder).
+func typeSig(t reflect.Type, depth int) string {
+	if t.Name() != "" {
+		return t.PkgPath() + "." + t.Name()
+	}
+	switch t.Kind() {
+	case reflect.Ptr, reflect.Slice, reflect.Array, reflect.Chan:
+		if depth >= 2 {
+			return t.Kind().String()
+		}
+		return t.Kind().String() + "(" + typeSig(t.Elem(), depth+1) + ")"
+	case reflect.Map:
+		if depth >= 2 {
+			return "map"
+		}
+		return "map(" + typeSig(t.Key(), depth+1) + "," + typeSig(t.Elem(), depth+1) + ")"
+	case reflect.Struct:
+		s := "struct#" + strconv.Itoa(t.NumField()) + "{"
+		for i := 0; i < t.NumField(); i++ {
+			f := t.Field(i)
+			s += f.Name + ":" + f.Type.Kind().String() + f.Type.Name() + "`" + string(f.Tag) + "`;"
+		}
+		return s + "}"
+	}
+	return t.Kind().String()
+}
+
+func typeText(t reflect.Type, full bool) string {
+	if full {
+		return "type:" + t.PkgPath() + "." + t.String()
+	}
+	return "type:" + typeSig(t, 0)
+}
+
 var typeOfType = reflect.TypeOf((*reflect.Type)(nil)).Elem()
 
-func valueString(v reflect.Value, depth int) string {
+func valueStringMode(v reflect.Value, depth int, full bool) string {
 	if !v.IsValid() {
 		return "<nil>"
 	}
 	if depth > 4 {
-		return v.Type().String()
+		return typeText(v.Type(), full)
 	}
 	// a reflect.Type held in the value: its String() is its content
 	if v.Type().Implements(typeOfType) && v.Kind() != reflect.Interface {
 		if v.CanInterface() {
 			if t, ok := v.Interface().(reflect.Type); ok && t != nil {
-				return "type:" + t.PkgPath() + "." + t.String()
+				return typeText(t, full)
 			}
 		} else if v.Kind() == reflect.Ptr && !v.IsNil() {
 			// unexported field holding a *rtype: rebuild an interface value from its pointer
 			if t := typeFromPtr(v); t != nil {
-				return "type:" + t.PkgPath() + "." + t.String()
+				return typeText(t, full)
 			}
 		}
 	}
@@ -185,26 +238,26 @@ func valueString(v reflect.Value, depth int) string {
 		if v.IsNil() {
 			return "<nil>"
 		}
-		return valueString(v.Elem(), depth)
+		return valueStringMode(v.Elem(), depth, full)
 	case reflect.Ptr:
 		if v.IsNil() {
-			return v.Type().String() + ":nil"
+			return typeText(v.Type(), full) + ":nil"
 		}
-		return "&" + v.Type().Elem().String() + valueString(v.Elem(), depth+1)
+		return "&" + typeText(v.Type().Elem(), full) + valueStringMode(v.Elem(), depth+1, full)
 	case reflect.Struct:
-		s := v.Type().String() + "{"
+		s := typeText(v.Type(), full) + "{"
 		for i := 0; i < v.NumField(); i++ {
-			s += valueString(v.Field(i), depth+1) + ","
+			s += valueStringMode(v.Field(i), depth+1, full) + ","
 		}
 		return s + "}"
 	case reflect.Array:
-		s := v.Type().String() + "["
+		s := typeText(v.Type(), full) + "["
 		for i := 0; i < v.Len(); i++ {
-			s += valueString(v.Index(i), depth+1) + ","
+			s += valueStringMode(v.Index(i), depth+1, full) + ","
 		}
 		return s + "]"
 	}
-	return v.Type().String()
+	return typeText(v.Type(), full)
 }
 
 // typeFromPtr turns a reflect.Value holding a pointer that implements
